@@ -201,3 +201,11 @@ Example ex_premise :
   (c <- cbor_encode [1;2;3;4;5;6;7;8;9;10] ;; e <- bc32encode (toy_sha c) ;; bc32decode e)
   = Ok (Some (toy_sha [74;1;2;3;4;5;6;7;8;9;10])).
 Proof. vm_compute. reflexivity. Qed.
+
+(* The constants written in the model are the constants of the SOURCE: coq/Generated/SrcConsts.v is regenerated
+   from /repo/buidl/*.py by harness/gen_coq_consts.py on every run; the statements are spelled out in
+   Proofs/ConstsTie.v (bech32_is_source_stmt). *)
+From V Require Proofs.ConstsTie.
+Theorem C20_constants_match_source : ConstsTie.bech32_is_source_stmt.
+Proof. exact ConstsTie.bech32_is_source. Qed.
+Print Assumptions C20_constants_match_source.
